@@ -72,3 +72,49 @@ def run(ctx, ok_drv, prop):
                 ctx.breaks.append(Break("correspondence", "name-cache model M8e and dir/dcache.go disagree (reply, Lastoff, cache map or slots)", "\n".join(m[:600] for m in mism[:6])))
         except Break as b:
             ctx.breaks.append(b)
+
+
+def run_atxn(ctx, ok_drv):
+    """Allocation-discipline correspondence (model M8b): `harness atxn` -> `drv atxn`."""
+    af = os.path.join(ctx.scratch, "atxn.txt")
+    args = ["-cases", "40", "-ops", "400"] if ctx.tier == "thorough" else ["-cases", "9", "-ops", "200"]
+    rc, err = ctx.harness(["atxn", "-seed", str(ctx.seed)] + args, af)
+    if rc != 0:
+        ctx.breaks.append(Break("correspondence", "harness atxn failed to run", err[-2000:]))
+        return
+    lines = open(af).read().splitlines()
+    hist = {}
+    for l in lines:
+        w = l.split()
+        k = w[0]
+        if k == "aalloc" and w[-1] == "0":
+            k = "aalloc:full"
+        hist[k] = hist.get(k, 0) + 1
+    ctx.cov["alloctxn_steps"] = hist
+    # judged on the real states alone: at a moment when no transaction is open the in-memory allocator equals the bitmap on disk
+    opened = set()
+    for no, l in enumerate(lines, 1):
+        w = l.split()
+        if w[0] in ("aalloc", "afree"):
+            opened.add(w[2])
+        elif w[0] in ("acommit", "aabort"):
+            opened.discard(w[1])
+        elif w[0] == "ainit":
+            opened = set()
+        elif w[0] == "astate" and not opened and w[2] != w[3]:
+            ctx.add_violation("alloctxn:allocator-differs-from-bitmap",
+                              "after step %d no allocation transaction is open and the in-memory %s allocator differs from the bitmap on the logical disk: %s vs %s"
+                              % (no, {"b": "block", "i": "inode"}[w[1]], w[2], w[3]),
+                              {"how": "harness atxn -seed %d: real alloctxn transactions on a real server's allocators and journal, interleaved; the lines are the history" % ctx.seed,
+                               "history": lines[max(0, no - 40):no]})
+            break
+    if ok_drv:
+        try:
+            n, mism, _ = ctx.driver("atxn", af)
+            ctx.cov["traces_validated_against_impl"] += n
+            ctx.cov["evaluations"] += n
+            ctx.cov["alloctxn_lines_compared"] = n
+            if mism:
+                ctx.breaks.append(Break("correspondence", "allocation-discipline model M8b and alloctxn disagree", "\n".join(m[:400] for m in mism[:6])))
+        except Break as b:
+            ctx.breaks.append(b)
